@@ -223,7 +223,7 @@ def run_check(prop, tier, seed):
         step = 10 if stream in ("hist", "copy", "solve", "verdict", "lu-api", "enum") else 30
         for s in range(0, n, step):
             payloads.append(("chunk_asan", dict(tier=tier, seed=seed, stream=stream, start=s, count=min(step, n - s), bindir=b)))
-    plan_v = [("solve", 6), ("hist", 3), ("file-valid", 4), ("file-mutant", 8), ("basis", 3), ("verdict", 3), ("copy", 2), ("lu-api", 2)]
+    plan_v = [("solve", 6), ("hist", 12), ("file-valid", 4), ("file-mutant", 8), ("basis", 3), ("verdict", 3), ("copy", 2), ("lu-api", 2)]
     for stream, n in plan_v:
         n *= (1 if q else 6)
         for s in range(n):
